@@ -226,6 +226,13 @@ theorem nonuniform_grid_miscounts :
     stepSum (groupsWithValues (ofList [3]) (1 / 100) 1 false 0 5 true none sizeOf) 5 = 1 := by
   decide +kernel
 
+/-- T9 (order of the selection).  `weight_select_bands`, the group filter and hence the whole group dictionary with
+    values depend on `select_bands` only as a multiset: permuting the selection changes nothing (repeated entries are
+    counted with their multiplicity, as `np.sum` of the masks does). -/
+theorem weight_select_perm_invariant {l l' : List Nat} (h : l.Perm l') (ab : Nat × Nat) :
+    wsel (some l) ab = wsel (some l') ab ∧ selHits (some l) ab = selHits (some l') ab :=
+  wsel_perm h ab
+
 /-! ## non-vacuity -/
 
 /-- a uniform 3-point grid 0, 1/2, 1 -/
